@@ -12,7 +12,7 @@ been handed to ANOTHER outstanding operation (it is reusable); `C12_late_reply_i
 response arriving under the ID of a timed-out operation whose scrub has been handled and whose ID
 has not been handed out again matches nothing: it is dropped and changes nothing but the read cursor.
 -/
-import Ldap3V.Lemmas.ConnPend
+import Ldap3V.Lemmas.ConnFinal
 namespace Ldap3V.Conn
 
 /-- The timeout law of one poll of a timed operation, for EVERY state:
@@ -187,6 +187,20 @@ theorem C12_late_reply_is_dropped (N : Nat) (evs : List Ev) (hf : FreshRun2 (ini
     (hid : f.id = (o.id : Int)) :
     step (run (init N) evs) .drvResp = some ({ run (init N) evs with pos := (run (init N) evs).pos + 1 }, .none) :=
   C12_reply_under_unreserved_id_is_dropped N evs hf o.id f hnotreused hd hnext hid
+
+/-- **whole histories: what a call returned is final.**  Whatever happens after a call has returned
+— further operations, late or duplicate replies under its ID, scrubs, faults, the ID being handed
+out again — the result it returned is not touched: a time-out stays a time-out (the late reply is
+never delivered to that caller), a delivered response stays that response. -/
+theorem C12_result_is_final (N : Nat) (before after : List Ev) (hf : FreshRun2 (init N) (before ++ after))
+    (i : Nat) (o : Op) (r : Res)
+    (ho : (run (init N) before).ops[i]? = some o) (hres : o.res = some r) :
+    ∃ o' : Op, (run (init N) (before ++ after)).ops[i]? = some o' ∧ o'.res = some r := by
+  obtain ⟨hf1, hf2⟩ := freshRun2_append before after _ hf
+  obtain ⟨hp, hu, ha, hr⟩ := reach N before hf1
+  rw [run_append]
+  obtain ⟨o', ho', hk⟩ := resKeep_run after _ hp hu ha hr hf2 i o ho
+  exact ⟨o', ho', by rw [hk (by rw [hres]; rfl), hres]⟩
 
 /-! ### non-vacuity (tests): reply one tick before, at, and after the deadline -/
 def tScript (replyAt : Nat) : List Ev :=
